@@ -302,11 +302,13 @@ pub fn run(args: &Args) -> i32 {
     });
 
     // ---- part B: fault enumeration on accepted chunks ---------------------
-    let sizes: Vec<usize> = if thorough { vec![1, 5, 9, 13] } else { vec![1] }; // payload 1,5,9,13 -> 28,32,36,40 bytes
-    for &pl in &sizes {
-        let base = mk_chunk(pl, 1, 1, 0, payload_bytes(pl, 9));
+    // (payload length, end-of-message flag): padded chunks with the flag set and clear (the padding is covered by
+    // the payload CRC whatever the flags say)
+    let sizes: Vec<(usize, u8)> = if thorough { vec![(1, 1), (2, 0), (5, 0), (5, 1), (9, 0), (13, 1)] } else { vec![(1, 1), (2, 0), (5, 0)] };
+    for &(pl, fl) in &sizes {
+        let base = mk_chunk(pl, 1, fl, 0, payload_bytes(pl, 9));
         let bits = (base.len() * 8) as u64;
-        rep.run(&format!("flips-1to3-{}B", base.len()), bits * bits * bits, 30, true, &format!("accepted {}-byte chunk: every set of 1, 2 or 3 distinct bit positions flipped (ordered triple i<=j<=k enumerated once)", base.len()), |idx, loc| {
+        rep.run(&format!("flips-1to3-{}B-flags{}-payload{}", base.len(), fl, pl), bits * bits * bits, 30, true, &format!("accepted {}-byte chunk (payload {} bytes, flags {}): every set of 1, 2 or 3 distinct bit positions flipped (ordered triple i<=j<=k enumerated once)", base.len(), pl, fl), |idx, loc| {
             let d = unrank(idx, &[bits, bits, bits]);
             let (i, j, k) = (d[0], d[1], d[2]);
             // canonical encodings: i<j<k (3 flips), i=j<k (2 flips: j,k)... keep it simple:
